@@ -156,3 +156,68 @@ Example C15_sparse_nonvacuous :
   model_agrees_sparse (2%nat, [OSet 1 10 true; OSet 2 20 false; OSet 3 30 false],
                        [RSet true None; RSet true None; RSet false None], [(2, 20, false); (1, 10, true)]%N) = false.
 Proof. vm_compute. split; reflexivity. Qed.
+
+(* ---- the sparse agreement in the property's own words (Proofs/LruSparse.v) ----
+   `pre ++ OSet k v d :: post` is the operation list of the run, `length pre` the position of the
+   insertion in it, `nth_error outs (length pre)` what the IMPLEMENTATION returned there. On a case
+   where the correspondence finds no disagreement: *)
+From Mkdb Require Import Proofs.LruSparse.
+
+(* a refusal was observed only on a cache that did not hold the key and was full of dirty entries *)
+Theorem C15_sparse_refusal_only_when_full_of_dirty : forall c pre k v d post outs fin ev,
+  model_agrees_sparse (c, pre ++ OSet k v d :: post, outs, fin) = true ->
+  nth_error outs (length pre) = Some (RSet false ev) ->
+  ~ In k (keys (entries (reach c pre))) /\
+  length (entries (reach c pre)) = c /\
+  Forall (fun x => edirty x = true) (entries (reach c pre)) /\
+  ev = None.
+Proof. exact sparse_refusal_means_full_of_dirty. Qed.
+Print Assumptions C15_sparse_refusal_only_when_full_of_dirty.
+
+(* an insertion was accepted whenever the cache was not full of dirty entries: an observed
+   acceptance excludes (key absent, full, all dirty) *)
+Theorem C15_sparse_accepts_unless_full_of_dirty : forall c pre k v d post outs fin ev,
+  model_agrees_sparse (c, pre ++ OSet k v d :: post, outs, fin) = true ->
+  nth_error outs (length pre) = Some (RSet true ev) ->
+  ~ (~ In k (keys (entries (reach c pre))) /\
+     length (entries (reach c pre)) = c /\
+     Forall (fun x => edirty x = true) (entries (reach c pre))).
+Proof. exact sparse_acceptance_means_room_or_clean. Qed.
+Print Assumptions C15_sparse_accepts_unless_full_of_dirty.
+
+(* an observed victim was a clean entry with only dirty entries behind it (less recently used) *)
+Theorem C15_sparse_victim_is_lru_clean : forall c pre k v d post outs fin k',
+  model_agrees_sparse (c, pre ++ OSet k v d :: post, outs, fin) = true ->
+  nth_error outs (length pre) = Some (RSet true (Some k')) ->
+  exists l1 e l2,
+    entries (reach c pre) = l1 ++ e :: l2 /\ ekey e = k' /\ edirty e = false /\
+    Forall (fun x => edirty x = true) l2 /\
+    entries (reach c (pre ++ [OSet k v d])) = mkEntry k v d :: l1 ++ l2 /\
+    length (entries (reach c pre)) = c /\ ~ In k (keys (entries (reach c pre))).
+Proof. exact sparse_victim_is_lru_clean. Qed.
+Print Assumptions C15_sparse_victim_is_lru_clean.
+
+(* non-vacuity: capacity 2, two dirty insertions, then a refused one (followed by a miss); both
+   hypotheses of the refusal theorem hold on this case, and so does its conclusion *)
+Example C15_sparse_refusal_nonvacuous :
+  let pre := [OSet 1 10 true; OSet 2 20 true] in
+  let post := [OGet 3] in
+  let outs := [RSet true None; RSet true None; RSet false None; RGet None] in
+  let fin := [(2, 20, true); (1, 10, true)] in
+  model_agrees_sparse (2%nat, pre ++ OSet 3 30 false :: post, outs, fin) = true /\
+  nth_error outs (length pre) = Some (RSet false None) /\
+  entries (reach 2 pre) = [mkEntry 2 20 true; mkEntry 1 10 true].
+Proof. vm_compute. repeat split; reflexivity. Qed.
+
+Example C15_sparse_refusal_instance :
+  let pre := [OSet 1 10 true; OSet 2 20 true] in
+  ~ In 3 (keys (entries (reach 2 pre))) /\
+  length (entries (reach 2 pre)) = 2%nat /\
+  Forall (fun x => edirty x = true) (entries (reach 2 pre)) /\
+  @None N = None.
+Proof.
+  exact (C15_sparse_refusal_only_when_full_of_dirty 2 [OSet 1 10 true; OSet 2 20 true] 3 30 false
+           [OGet 3] [RSet true None; RSet true None; RSet false None; RGet None]
+           [(2, 20, true); (1, 10, true)] None
+           (proj1 C15_sparse_refusal_nonvacuous) (proj1 (proj2 C15_sparse_refusal_nonvacuous))).
+Qed.
